@@ -728,8 +728,11 @@ def after_edits_vs_fresh(spec, calls, edits):
     """results of `calls` on the SAME objects after: all calls once, then the edits — and on a freshly built tree
     with the edited values. Returns (results_same_objects, results_fresh, edited_snapshot)."""
     env = Env(spec)
+    s0 = env.state()
     for d in calls:
         perform(env, d)
+    if env.state() != s0:
+        return None          # some call modified the tree: reported by the snapshot checks, nothing to attribute here
     apply_edits(env, edits)
     same = [perform(env, d) for d in calls]
     sn2 = NL.snapshot(env.root)
@@ -836,7 +839,10 @@ class Runner:
         calls = [d for d in self.calls if d.get("c", 0) < self.env.twin0]
         for _ in range(rounds):
             edits = random_edits(self.env, self.rng)
-            same, fresh, sn2 = after_edits_vs_fresh(self.spec, calls, edits)
+            res = after_edits_vs_fresh(self.spec, calls, edits)
+            if res is None:
+                continue
+            same, fresh, sn2 = res
             self.ctx.count("edit-then-repeat rounds")
             for d, a, b in zip(calls, same, fresh):
                 self.ctx.case(None, nontrivial=False)
@@ -988,7 +994,8 @@ def replay(ctx, data):
     rp = data["replay"]
     print(json.dumps({k: rp[k] for k in rp if k != "tree"}, indent=1)[:3000])
     if rp.get("edits"):
-        same, fresh, _ = after_edits_vs_fresh(rp["tree"], rp["calls"], rp["edits"])
+        res = after_edits_vs_fresh(rp["tree"], rp["calls"], rp["edits"])
+        same, fresh = (res[0], res[1]) if res is not None else ([], [])
         for d, a, b in zip(rp["calls"], same, fresh):
             if a != b:
                 ctx.fail("C11:" + d["op"], f"result of {d['op']} on a tree edited in place differs from its result on a freshly built identical tree", rp)
